@@ -52,6 +52,7 @@ import (
 
 	"verif/internal/compose"
 	"verif/internal/ev"
+	"verif/internal/fw"
 	"verif/internal/hx"
 	"verif/internal/kf"
 	"verif/internal/run"
@@ -343,6 +344,17 @@ type Case struct {
 	// Tags; see rootOuter). A typed root is also compared with the same case on a map[string]any root.
 	Entry string `json:"entry,omitempty"`
 	Root  string `json:"root,omitempty"`
+	// After: the case is additionally rendered right after a FAILING render of a stale twin of
+	// itself (same templates and names, every value recognisably different, failure injected at
+	// the end of the page) and must meet the model all the same:
+	//   "fresh"         failing render on a fresh engine, then the case on a fresh engine (process-wide pools)
+	//   "engine"        both on one engine (NewFS once)
+	//   "object-fill"   both on one loaded Template object: Fill(stale data without okz).Render fails on
+	//                   the guard component at the end of the page, then Fill(data).Render
+	//   "object-assign" one loaded Template object: Fill(data without okz).Render fails, Assign("okz").Render
+	//   "writer"        successful stale render into a writer that fails after a few bytes, then the case (same engine)
+	//   "load"          Load of a missing file, Assign / Render on what it returns, then the case on the base template
+	After string `json:"after,omitempty"`
 	// PageCRLF: page.vuego is written with CRLF line endings.
 	PageCRLF bool              `json:"page_crlf,omitempty"`
 	Data     map[string]vals.V `json:"data,omitempty"`
@@ -1912,6 +1924,14 @@ func check(c Case) error {
 			return wrap(e)
 		}
 	}
+	// What a failed (or cut short) render leaves behind must not show in the next one.
+	if m.vague == "" {
+		if outA, errA, ran, _ := afterFailure(c); ran {
+			if e := judge("<template include> rendered right after a failing render of a stale twin ("+c.After+")", outA, errA, m); e != nil {
+				return wrap(e)
+			}
+		}
+	}
 	// The shape in which the caller hands over the page data makes no difference: the includer's
 	// variables are visible to components - and count for :required - exactly as they do when the
 	// same data come as a map[string]any (whichever way a name that only the includer has counts).
@@ -1932,6 +1952,153 @@ func check(c Case) error {
 		}
 	}
 	return nil
+}
+
+// ---------------------------------------------------------------------------------------------
+// After-failure dimension
+// ---------------------------------------------------------------------------------------------
+
+var afterKinds = []string{"fresh", "engine", "object-fill", "object-assign", "writer", "load"}
+
+// staleVal: the same shape, every leaf recognisably different.
+func staleVal(v any) any {
+	switch x := v.(type) {
+	case string:
+		return x + "-STALE"
+	case int:
+		return x + 1000
+	case float64:
+		return x + 1000
+	case bool:
+		return !x
+	case []any:
+		out := []any{"STALE"}
+		for _, e := range x {
+			out = append(out, staleVal(e))
+		}
+		return out
+	case []string:
+		out := []string{"STALE"}
+		for _, e := range x {
+			out = append(out, e+"-STALE")
+		}
+		return out
+	case map[string]any:
+		out := map[string]any{"stale": "STALE"}
+		for k, e := range x {
+			out[k] = staleVal(e)
+		}
+		return out
+	}
+	return v
+}
+
+// failTail is appended to the page of the failing twin: includes of a component file that does
+// not exist, carrying the case's prop names with stale values, inside a v-for when there is
+// something to loop over.
+func failTail(c Case) string {
+	var attrs []string
+	for _, n := range c.Names {
+		if propName(n) {
+			attrs = append(attrs, fmt.Sprintf(`%s="STALE-%s"`, n, n))
+		}
+	}
+	attrs = append(attrs, `:zq9="d0"`, `level="7"`)
+	tag := `<template include="components/GoneZ.vuego" ` + strings.Join(attrs, " ") + `></template>` + "\n"
+	isList := false
+	if rv, has := c.Data[rowsVar]; has {
+		_, isList = rv.Go().([]any)
+	}
+	if isList {
+		return `<div v-for="` + loopVar + ` in ` + rowsVar + `">` + "\n<b>{{ " + loopVar + " }}</b>\n" + tag + "</div>\n"
+	}
+	return tag
+}
+
+const guardTail = `<template include="components/GuardZ.vuego" :okz="okz"></template>` + "\n"
+const guardFile = `<template :required="okz"></template>` + "\n"
+
+// afterFailure runs the failing twin and then the case; it returns the output and error of the
+// case's (second) render, ran=false when the dimension does not apply or the twin did not fail.
+func afterFailure(c Case) (out string, err error, ran bool, note string) {
+	if c.After == "" || c.Root != "" {
+		return "", nil, false, ""
+	}
+	fsys := fstest.MapFS{}
+	fl := files(c, false)
+	for k, v := range fl {
+		fsys[k] = &fstest.MapFile{Data: []byte(v)}
+	}
+	page := strings.TrimSuffix(strings.ReplaceAll(fl["page.vuego"], "\r\n", "\n"), "</div>\n")
+	fsys["fail.vuego"] = &fstest.MapFile{Data: []byte(page + failTail(c) + "</div>\n")}
+	fsys["pagez.vuego"] = &fstest.MapFile{Data: []byte(page + guardTail + "</div>\n")}
+	fsys["components/GuardZ.vuego"] = &fstest.MapFile{Data: []byte(guardFile)}
+	data, stale := map[string]any{}, map[string]any{}
+	for k, v := range c.Data {
+		data[k] = v.Go()
+		stale[k] = staleVal(v.Go())
+	}
+	for _, n := range c.Names { // the stale twin binds every name of the case
+		if _, has := stale[n]; !has {
+			stale[n] = "STALE-" + n
+		}
+	}
+	ctx := context.Background()
+	var sink, buf bytes.Buffer
+	switch c.After {
+	case "fresh":
+		if e := vuego.NewFS(fsys).Load("fail.vuego").Fill(stale).Render(ctx, &sink); e == nil {
+			return "", nil, false, "the failing twin did not fail"
+		}
+		o, e := render(c, false)
+		return o, e, true, ""
+	case "engine":
+		tpl := vuego.NewFS(fsys)
+		if e := tpl.Load("fail.vuego").Fill(stale).Render(ctx, &sink); e == nil {
+			return "", nil, false, "the failing twin did not fail"
+		}
+		e := tpl.Load("page.vuego").Fill(data).Render(ctx, &buf)
+		return buf.String(), e, true, ""
+	case "object-fill", "object-assign":
+		tpl := vuego.NewFS(fsys)
+		t := tpl.Load("pagez.vuego")
+		first := data
+		if c.After == "object-fill" {
+			first = stale
+		}
+		if e := t.Fill(first).Render(ctx, &sink); e == nil {
+			return "", nil, false, "the failing twin did not fail"
+		}
+		if c.After == "object-fill" {
+			withOK := map[string]any{"okz": 1}
+			for k, v := range data {
+				withOK[k] = v
+			}
+			t.Fill(withOK)
+		} else {
+			t.Assign("okz", 1)
+		}
+		e := t.Render(ctx, &buf)
+		return buf.String(), e, true, ""
+	case "writer":
+		tpl := vuego.NewFS(fsys)
+		w := &fw.FailAt{K: 40 + len(c.Names)}
+		_ = tpl.Load("page.vuego").Fill(stale).Render(ctx, w)
+		e := tpl.Load("page.vuego").Fill(data).Render(ctx, &buf)
+		return buf.String(), e, true, ""
+	case "load":
+		tpl := vuego.NewFS(fsys)
+		bad := tpl.Load("components/GoneZ.vuego")
+		for _, n := range c.Names {
+			bad.Assign(n, "STALE-"+n)
+		}
+		if e := bad.Render(ctx, &sink); e == nil {
+			return "", nil, false, "Render of a missing file did not fail"
+		}
+		e := tpl.Load("page.vuego").Fill(data).Render(ctx, &buf)
+		return buf.String(), e, true, ""
+	}
+	return "", nil, false, "unknown after kind"
 }
 
 func classify(c Case) (bool, []string) {
@@ -1979,6 +2146,7 @@ func classify(c Case) (bool, []string) {
 	add(s.crlf > 0, "frontmatter-file-crlf")
 	add(s.fenceBlanks > 0, "frontmatter-fence-trailing-blanks")
 	add(c.PageCRLF, "page-crlf")
+	add(c.After != "" && c.Root == "", "after-failure:"+c.After)
 	add(c.Entry != "", "entry:"+c.Entry)
 	add(c.Root != "", "root-data:"+c.Root)
 	add(c.Root != "" && s.reqScope > 0, "root-data-typed+required-by-includer-scope-only")
@@ -2632,6 +2800,9 @@ func genCase(rec *ev.Rec, known *kf.File) func(t *rapid.T) Case {
 		// every other value becomes a string and the placements (which need the list rows and the
 		// bools ct / cf) go; repair() then rebinds the paths that no longer resolve.
 		c.Entry = rapid.SampledFrom([]string{"", "", "vue-render", "vue-fragment"}).Draw(t, "entry")
+		if rapid.IntRange(0, run.Pick(2, 1)).Draw(t, "afterfailure") == 0 {
+			c.After = rapid.SampledFrom(afterKinds).Draw(t, "after")
+		}
 		if rapid.IntRange(0, 7).Draw(t, "typedroot") == 0 {
 			c.Root = "mapss"
 			keys := make([]string, 0, len(c.Data))
@@ -3679,6 +3850,10 @@ func TestProp(t *testing.T) {
 			}
 			if known.Open(kfNested) {
 				c.NestedShort = false
+			}
+			// after-failure dimension: every third enumerated case in quick, every case in thorough
+			if every := run.Pick(3, 1); i%every == 0 {
+				c.After = afterKinds[(i/every)%len(afterKinds)]
 			}
 			if known.Open(kfBraces) {
 				for k, nb := 0, avoidBraces(&c); k < nb; k++ {
